@@ -87,6 +87,37 @@ impl<T: Decode> DecodeLimit for T {
 	}
 }
 
+/// Verification hook: one descend/ascend step of the (private) depth tracking input from an
+/// arbitrary state `(depth, max_depth)`. Returns the result of `descend_ref`, the depth after it
+/// and the depth after the following `ascend_ref`.
+#[cfg(any(kani, parity_scale_codec_verif))]
+#[doc(hidden)]
+pub fn __verif_depth_step<I: Input>(
+	input: &mut I,
+	depth: u32,
+	max_depth: u32,
+) -> (Result<(), Error>, u32, u32) {
+	let mut tracking = DepthTrackingInput { input, depth, max_depth };
+	let descended = tracking.descend_ref();
+	let after_descend = tracking.depth;
+	tracking.ascend_ref();
+	(descended, after_descend, tracking.depth)
+}
+
+/// Verification hook: decode `T` through the (private) depth tracking input started in an
+/// arbitrary state `(depth, max_depth)`; returns the result and the final depth.
+#[cfg(any(kani, parity_scale_codec_verif))]
+#[doc(hidden)]
+pub fn __verif_decode_at_depth<T: Decode, I: Input>(
+	input: &mut I,
+	depth: u32,
+	max_depth: u32,
+) -> (Result<T, Error>, u32) {
+	let mut tracking = DepthTrackingInput { input, depth, max_depth };
+	let result = T::decode(&mut tracking);
+	(result, tracking.depth)
+}
+
 #[cfg(test)]
 mod tests {
 	use super::*;
